@@ -110,6 +110,10 @@ _tok('amb_nested_inl2', [Rule('start', [[N('_c'), N('_c')]]), Rule('_c', [[N('x'
 _tok('amb_null', [Rule('start', [[N('o'), A, N('o')]]), Rule('o', [[], [A], [N('o'), N('o2')]]), Rule('o2', [[B]])], ['A', 'B'], {'ambiguous', 'amb'})
 
 
+# a ranged repeat with lower bound 0 above lark's REPEAT_BREAK_THRESHOLD (factored into helper rules by small_factors)
+_tok('rep0big', [Rule('start', [[Rep(A, 0, 51), B]])], ['A', 'B'], {'lalr', 'unamb'})
+
+
 def tok_names(tag=None, exclude=()):
     return [k for k, v in TOK.items() if (tag is None or tag in v['tags']) and not (set(exclude) & v['tags'])]
 
@@ -181,6 +185,18 @@ _txt('nulltxt', [
 _txt('prefalt', [
     Rule('start', [[Opt(L('x')), Opt(T('END'))]]),
 ], [Term('END', ('re', r'z|zz'))], tags={'dyn', 'finding'})
+
+# anonymous literals whose conventional names (PLUS, COMMA) are taken by user terminals with other patterns
+_txt('anoncollide', [
+    Rule('start', [[Plus(Grp([T('PLUS'), L('+')], [T('COMMA'), L(',')]))]]),
+], [Term('PLUS', 'p'), Term('COMMA', ';')], tags={'dyn'})
+
+# a terminal that can itself begin with ignorable text: "skip the ignored text, then match" is a derivation of its own
+_txt('ignstart', [
+    Rule('start', [[T('A'), N('xs')]]),
+    Rule('xs', [[N('x')], [N('xs'), N('x')]]),
+    Rule('x', [[T('TB')], [T('B')]]),
+], [Term('A', 'a'), Term('TB', ('re', 'xb|x')), Term('B', 'b'), Term('IGN', 'x')], ignore=['IGN'], tags={'ambiguous', 'dyn'})
 
 
 # ---------------------------------------------------------------------------------------------------------------------
